@@ -1,8 +1,10 @@
 #!/bin/bash
 # usage: tools/try_mutant.sh <patch.diff> <Cxx> [more props]  -- applies the patch to /repo, runs the quick checks, reverts.
+# Evidence and replays of these runs go to $VP_OUT_DIR (default /tmp/vp_mut), never to /verif/evidence.
 set -u
-P=$1; shift
+P=$(readlink -f "$1"); shift
+export VP_OUT_DIR=${VP_OUT_DIR:-/tmp/vp_mut}; mkdir -p $VP_OUT_DIR
 cd /repo && git apply "$P" || { echo "patch does not apply"; exit 3; }
+trap 'cd /repo && git checkout -- .' EXIT
 cd /verif
-for c in "$@"; do ./check $c --tier quick 2>&1 | grep -E "VIOLATION|KNOWN|seed=|HARNESS" | cut -c1-300; echo "exit=$?"; done
-cd /repo && git checkout -- . 
+for c in "$@"; do ./check $c --tier ${TIER:-quick} --seed ${VERIF_SEED:-1} 2>&1 | grep -E "VIOLATION|KNOWN|signature=|seed=|HARNESS" | cut -c1-300; echo "exit=${PIPESTATUS[0]}"; done
